@@ -4,7 +4,9 @@ C50 executable model of `(*Client).getConnectedNodes` (core Lean only).
 `conns`: the connection map as (map key, node) pairs, any order — the code ranges a skipmap, i.e. ascending
 key order, and keeps the first `NumRedundantLinks = 3` nodes. With a recorder, the kept nodes are stably sorted
 by the code's comparator over `rttLookup` (measurement key ↦ average of the snapshot over the last 10 s; absent
-when the snapshot is nil). The average itself is the implementation's integer (nanoseconds), an input.
+when the snapshot is nil). The recorder (`rtt.Instrumentation`) is modelled too: `RecordLatency` keeps a sliding
+slice of at most `capacity + 1` points, each with the time of its own recording, and `Snapshot` averages the
+values of the retained points inside the window.
 -/
 namespace Specter.C50
 
@@ -18,22 +20,47 @@ deriving Repr, DecidableEq
 /-- `rtt.MakeMeasurementKey` -/
 def mkey (n : Node) : String := n.addr ++ "/" ++ (if n.unknown then "-1" else "PHY")
 
-/-- measurements of one key: ages (ms) of the recorded points, and the average the implementation computed
-over the window (`none` when its snapshot was nil) -/
+/-- one call `RecordLatency(key, val)`: `age` = how long before the snapshot it happened (ms), `val` = the
+recorded round-trip time (ns; the code ignores negative values) -/
+structure Sample where
+  age : Nat
+  val : Int
+deriving Repr, DecidableEq
+
+/-- everything known about one measurement key: all samples ever passed to `RecordLatency`, in recording order
+(ground truth of the harness), and the average the implementation reported (`none` when its snapshot was nil).
+The model does not read `avg`; the driver compares it with the model's own `snapshot`. -/
 structure Entry where
   mkey : String
-  ages : List Nat
+  samples : List Sample
   avg : Option Int
 deriving Repr
 
 def windowMs : Nat := 10000
 def numRedundantLinks : Nat := 3
+/-- `rtt.NewInstrumentation(20)` in cmd/client -/
+def capacity : Nat := 20
 
-/-- `Snapshot(key, 10s)`: nil when the key is unknown or no point lies inside the window -/
+/-- `RecordLatency`: negative values are dropped; when the slice already holds more than `cap` points the oldest
+one is removed; the new point is appended WITH ITS OWN time. -/
+def record (cap : Nat) (data : List Sample) (s : Sample) : List Sample :=
+  if s.val < 0 then data
+  else (if data.length > cap then data.drop 1 else data) ++ [s]
+
+/-- the slice of a key after all its samples have been recorded -/
+def recordAll (cap : Nat) (ss : List Sample) : List Sample := ss.foldl (record cap) []
+
+/-- `Snapshot(…, 10s)` on one slice: nil when no retained point lies inside the window, else the mean of the
+values inside the window (`time.Duration(stats.Mean(values))`: truncated; values are non-negative) -/
+def snapAvg (data : List Sample) : Option Int :=
+  let vs := (data.filter (fun p => decide (p.age ≤ windowMs))).map (·.val)
+  if vs.isEmpty then none else some (vs.sum / (vs.length : Int))
+
+/-- `Snapshot(key, 10s)`: nil when the key is unknown or no retained point lies inside the window -/
 def snapshot (tab : List Entry) (k : String) : Option Int :=
   match tab.find? (·.mkey == k) with
   | none => none
-  | some e => if e.ages.any (· ≤ windowMs) then e.avg else none
+  | some e => snapAvg (recordAll capacity e.samples)
 
 /-- the comparator passed to `sort.SliceStable` -/
 def less (look : Node → Option Int) (a b : Node) : Bool :=
